@@ -1802,10 +1802,55 @@ impl PhysicalPlanner {
             }
 
             LogicalPlan::Values(node) => {
-                // Evaluate constant expressions and create a batch
+                // Evaluate the constant expressions of every row against a
+                // one-row dummy batch and stack them column by column.
                 let schema = plan_schema_to_arrow(&node.schema);
-                // For now, return empty - proper implementation needs expression evaluation
-                let exec = MemoryTableExec::new("values", schema, vec![], None);
+                let unit_schema = Arc::new(Schema::new(vec![Field::new(
+                    "__values_unit",
+                    arrow::datatypes::DataType::Int32,
+                    false,
+                )]));
+                let unit = arrow::record_batch::RecordBatch::try_new(
+                    unit_schema,
+                    vec![Arc::new(arrow::array::Int32Array::from(vec![0]))],
+                )?;
+                let mut columns: Vec<arrow::array::ArrayRef> =
+                    Vec::with_capacity(schema.fields().len());
+                for (ci, field) in schema.fields().iter().enumerate() {
+                    let mut cells: Vec<arrow::array::ArrayRef> =
+                        Vec::with_capacity(node.values.len());
+                    for row in &node.values {
+                        let expr = row.get(ci).ok_or_else(|| {
+                            QueryError::Plan(
+                                "VALUES rows must all have the same number of columns".into(),
+                            )
+                        })?;
+                        if row.len() != schema.fields().len() {
+                            return Err(QueryError::Plan(
+                                "VALUES rows must all have the same number of columns".into(),
+                            ));
+                        }
+                        let v = crate::physical::operators::evaluate_expr(&unit, expr)?;
+                        let v = if v.data_type() != field.data_type() {
+                            arrow::compute::cast(&v, field.data_type())?
+                        } else {
+                            v
+                        };
+                        cells.push(v);
+                    }
+                    let refs: Vec<&dyn arrow::array::Array> =
+                        cells.iter().map(|a| a.as_ref()).collect();
+                    columns.push(arrow::compute::concat(&refs)?);
+                }
+                let batches = if node.values.is_empty() {
+                    vec![]
+                } else {
+                    vec![arrow::record_batch::RecordBatch::try_new(
+                        schema.clone(),
+                        columns,
+                    )?]
+                };
+                let exec = MemoryTableExec::new("values", schema, batches, None);
                 Ok(Arc::new(exec))
             }
 
